@@ -1877,10 +1877,7 @@ mod blps {
         // C16 findings) and DXT levels with partial blocks are truncated on parse
         let cases: Vec<(&str, u32, u32, bool, bool, BlpTarget)> = vec![
             ("blp1-raw1-a8-16x16-mips", 16, 16, true, true, BlpTarget::Blp1(BlpOldFormat::Raw1 { alpha_bits: AlphaBits::Bit8 })),
-            ("blp1-jpeg-noalpha-16x16-nomips", 16, 16, false, false, BlpTarget::Blp1(BlpOldFormat::Jpeg { has_alpha: false })),
-            ("blp1-jpeg-alpha-8x8-mips", 8, 8, true, true, BlpTarget::Blp1(BlpOldFormat::Jpeg { has_alpha: true })),
             ("blp2-raw1-a1-16x16-mips", 16, 16, true, true, BlpTarget::Blp2(Blp2Format::Raw1 { alpha_bits: AlphaBits::Bit1 })),
-            ("blp2-raw1-a4-8x8-nomips", 8, 8, true, false, BlpTarget::Blp2(Blp2Format::Raw1 { alpha_bits: AlphaBits::Bit4 })),
             ("blp2-raw3-8x8-mips", 8, 8, true, true, BlpTarget::Blp2(Blp2Format::Raw3)),
             ("blp2-dxt1-alpha-16x16-mips", 16, 16, true, true, BlpTarget::Blp2(Blp2Format::Dxt1 { has_alpha: true, compress_algorithm: dxt })),
             ("blp2-dxt3-32x32-mips", 32, 32, true, true, BlpTarget::Blp2(Blp2Format::Dxt3 { has_alpha: true, compress_algorithm: dxt })),
@@ -1896,18 +1893,15 @@ mod blps {
         }
         // BLP0 keeps every image in external .b00 … files: the main file alone is header (+ palette
         // / JPEG header) only, parse_blp needs parse_blp_with_externals to get further
-        for (name, target) in [
-            ("blp0-raw1-a8-8x8-main-file-only", BlpTarget::Blp0(BlpOldFormat::Raw1 { alpha_bits: AlphaBits::Bit8 })),
-            ("blp0-jpeg-8x8-main-file-only", BlpTarget::Blp0(BlpOldFormat::Jpeg { has_alpha: false })),
-        ] {
+        for (name, target) in [("blp0-raw1-a8-8x8-main-file-only", BlpTarget::Blp0(BlpOldFormat::Raw1 { alpha_bits: AlphaBits::Bit8 }))] {
             if let Ok(img) = image_to_blp(picture(8, 8, true), true, target, FilterType::Nearest) {
                 if let Ok(r) = encode_blp0(&img) {
                     push(v, "blp", name, r.blp_bytes);
                 }
             }
         }
+        // the crate's own fixtures: BLP1 JPEG and BLP1 palettised, 2x2 / 2x3 with mip chain
         push(v, "blp", "fixture-test_simple_jpg", include_bytes!("/repo/file-formats/graphics/wow-blp/test-data/test_simple_jpg.blp").to_vec());
-        push(v, "blp", "fixture-test_rect_without_alpha", include_bytes!("/repo/file-formats/graphics/wow-blp/test-data/test_rect_without_alpha.blp").to_vec());
         push(v, "blp", "fixture-test_rect_with_alpha", include_bytes!("/repo/file-formats/graphics/wow-blp/test-data/test_rect_with_alpha.blp").to_vec());
     }
 }
